@@ -109,6 +109,8 @@ static std::vector<Cfg> configs(const std::string &planner, bool thorough)
         add("maze6", "R2", "region-unsampleable", 0.5, 0, 0.02, 40);
         add("wallgap4", "SE2", "state", 0.3, 0, 0.02, 40);
         add("empty4", "SE2", "states", 0.3, 0, 0.05, 40);
+        add("wallgap4", "R2", "state", 0.3, 0, 0.02, 40);
+        v.back().starts = 3;
         return v;
     }
     if ((flags & vpl::VARIANT) && !thorough)
@@ -121,6 +123,8 @@ static std::vector<Cfg> configs(const std::string &planner, bool thorough)
         add("wallgap4", "R2", "states", 0.3, 0.7, 0.05, B);
         add("maze6", "R2", "region-unsampleable", 0.5, 0, 0.02, B);
         add("maze6", "SE2", "states", 0.3, 0, 0.05, B);
+        add("wallgap4", "R2", "state", 0.3, 0, 0.02, B);
+        v.back().starts = 3;
         return v;
     }
     for (auto &m : maps())
@@ -132,6 +136,11 @@ static std::vector<Cfg> configs(const std::string &planner, bool thorough)
     add("maze6", "R2", "region-unsampleable", 0.5, 0, 0.02, B);
     add("wallgap4", "SE2", "state", 0.3, 0, 0.02, B);
     add("maze6", "SE2", "states", 0.3, 0, 0.05, B);
+    // several start states, the first one invalid
+    add("wallgap4", "R2", "state", 0.3, 0, 0.02, B);
+    v.back().starts = 3;
+    add("utrap4", "R2", "states", 0.3, 0.7, 0.05, B);
+    v.back().starts = 3;
     static const char *carPlanners[] = {"RRT", "EST", "KPIECE1", "SST", "PDST", "RLRT"};
     for (const char *cp : carPlanners)
         if (planner == cp)
